@@ -508,6 +508,13 @@ class ExecMixin(object):
                     for kk in E.dkeys(inner.key, inner.val):
                         out.append((kk, member))
                 return out
+            if fn == 'fields_of':
+                # field f of every object that is an element of the list e
+                outer = self.spec_eval(node.args[0], st, sctx)
+                fname = node.args[1].value
+                fty = self.field_type(outer.ty.elem.cls, fname)
+                member = ('member', outer.z, self.list_len(st, outer), self.list_arr(st, outer))
+                return [(E.fkey(fname, fty), member)]
             if fn == 'alldicts':
                 # every dict of the type of e (whole maps)
                 d = self.spec_eval(node.args[0], st, sctx)
